@@ -288,4 +288,10 @@ SEGMENTS = {
             (r"return r;", "return r.map_err(Into::into);"),
         ],
     ),
+    # ---- the allocator's outer loop: advance refblock by refblock, move the hint up
+    "AC": dict(
+        file="src/dev/alloc.rs", fn="allocate_clusters", start="FULL",
+        sig="pub(crate) fn seg_ac(&self, count: usize) -> Qcow2Result<Option<(u64, usize)>>",
+        await_calls=["try_allocate_from"],
+    ),
 }
